@@ -6,6 +6,7 @@ import (
 	"fmt"
 	"io"
 	"os"
+	"sync"
 	"sync/atomic"
 	"time"
 
@@ -153,8 +154,18 @@ func (s *Srv) Close(removeDir bool) {
 	}
 }
 
+// OnHang, when set, is called (once, from a timer goroutine) when a request made with Ctx() has been outstanding for
+// RPCTimeout minus 2 s. The check decides what it means (see hangVerdict in btcheck).
+var OnHang func()
+var hangOnce sync.Once
+
 func Ctx() (context.Context, context.CancelFunc) {
-	return context.WithTimeout(context.Background(), RPCTimeout)
+	ctx, cancel := context.WithTimeout(context.Background(), RPCTimeout)
+	if OnHang == nil {
+		return ctx, cancel
+	}
+	t := time.AfterFunc(RPCTimeout-2*time.Second, func() { hangOnce.Do(OnHang) })
+	return ctx, func() { t.Stop(); cancel() }
 }
 
 // ---- proto conversion ----------------------------------------------------------------------
